@@ -12,12 +12,12 @@ import (
 	"time"
 
 	"github.com/muesli/cache2go"
-	"go.uber.org/zap"
 	"golang.org/x/crypto/ocsp"
 
 	"github.com/gr33nbl00d/caddy-revocation-validator/config"
 	repoocsp "github.com/gr33nbl00d/caddy-revocation-validator/ocsp"
 
+	"verif/harness/lab/l2"
 	"verif/harness/lab/origin"
 	"verif/harness/lab/pki"
 	"verif/harness/lab/report"
@@ -34,7 +34,7 @@ type responder struct {
 
 func newChecker(strict bool, d time.Duration) *repoocsp.OCSPRevocationChecker {
 	c := &repoocsp.OCSPRevocationChecker{}
-	_ = c.Provision(&config.OCSPConfig{OCSPAIAStrict: strict, DefaultCacheDurationParsed: d, TrustedResponderCerts: []*x509.Certificate{}}, zap.NewNop())
+	_ = c.Provision(&config.OCSPConfig{OCSPAIAStrict: strict, DefaultCacheDurationParsed: d, TrustedResponderCerts: []*x509.Certificate{}}, l2.DebugLogger())
 	return c
 }
 
